@@ -67,6 +67,7 @@ impl BlockParser {
                                  format!("{:?}", state.line_offsets));
                     let verdict = rule(state, true);
                     let line_after = state.line;
+                    if !verdict && line_after != saved.0 { crate::verif_hooks::failed_moved(false, verif_rule_idx, saved.0, line_after); }
                     state.line = saved.0;
                     let kept = (state.blk_indent, state.line_max, state.tight, state.list_indent, state.level)
                         == (saved.1, saved.2, saved.3, saved.4, saved.5) && format!("{:?}", state.line_offsets) == saved.6;
@@ -75,6 +76,7 @@ impl BlockParser {
                 ok = rule(state, false);
                 #[cfg(mdit_verif)]
                 {
+                    if !ok && state.line != prev_line { crate::verif_hooks::failed_moved(false, verif_rule_idx, prev_line, state.line); }
                     if let Some((silent, kept_tree, kept_pos)) = verif_probe {
                         crate::verif_hooks::record(crate::verif_hooks::ProbeRecord {
                             inline: false, rule_idx: verif_rule_idx, at: prev_line, silent,
